@@ -19,7 +19,7 @@ class ApiHelpers(pipeline.Module):
     def rule(self):
         return ("scenario = one call: ParseEventMask / MustParseEventMask on 1-2 tokens (event names, shorthands, empty, "
                 "unknown; lower / camel / upper / padded; one or two arguments), the removal-marker functions on 7 keys, "
-                "ParsePluginName / CheckPluginIndex on 19 names, EventMask Set / Clear / IsSet / PrettyString / re-parse on 8 x 8 x 2 masks, "
+                "ParsePluginName / CheckPluginIndex on 19 names, EventMask Set / Clear / IsSet / PrettyString / re-parse on 8 x 8 x 3 masks, "
                 "Mount.Cmp on 8 x 8 mounts, LinuxDevice.Cmp on 4 x 4 devices, Hooks.Append / Hooks() on 324 pairs")
 
 
